@@ -5,13 +5,13 @@ open Tak Codec Tak.TEI
 
 /-! ops `budget mt gt inc`, `tei depth <hex stream> [table…]`, `teiclass …` (C17, C13 TEI part) -/
 
-def hexVal (c : Char) : Option Nat :=
+private def hexVal (c : Char) : Option Nat :=
   if '0' ≤ c ∧ c ≤ '9' then some (c.toNat - '0'.toNat)
   else if 'a' ≤ c ∧ c ≤ 'f' then some (c.toNat - 'a'.toNat + 10)
   else if 'A' ≤ c ∧ c ≤ 'F' then some (c.toNat - 'A'.toNat + 10)
   else none
 
-def unhexAux : List Char → List Nat → Option (List Nat)
+private def unhexAux : List Char → List Nat → Option (List Nat)
   | [], acc => some acc.reverse
   | [_], _ => none
   | a :: b :: r, acc => do
@@ -20,10 +20,10 @@ def unhexAux : List Char → List Nat → Option (List Nat)
     unhexAux r ((x * 16 + y) :: acc)
 
 /-- hex → bytes; `-` is the empty string -/
-def unhex (s : String) : Option (List Nat) :=
+private def unhex (s : String) : Option (List Nat) :=
   if s == "-" then some [] else unhexAux s.toList []
 
-def hexDigit (n : Nat) : Char := "0123456789abcdef".toList.getD n '0'
+private def hexDigit (n : Nat) : Char := "0123456789abcdef".toList.getD n '0'
 
 def hexOfString (s : String) : String :=
   String.ofList (s.toUTF8.toList.flatMap (fun b => [hexDigit (b.toNat / 16), hexDigit (b.toNat % 16)]))
